@@ -96,6 +96,31 @@ def hello_compose_unit():
 
 
 # ------------------------------------------------------------------------------------------------- aliasing
+def native_mutables(o, seen=None, out=None):
+    """ids of the mutable objects reachable from a native result: lists, dicts, sets, bytearrays and non-frozen attrs
+    instances of repository classes (enum members and values of other packages are not followed)"""
+    import enum as _enum
+    seen = seen if seen is not None else set()
+    out = out if out is not None else set()
+    if id(o) in seen or isinstance(o, (_enum.Enum, type)):
+        return out
+    seen.add(id(o))
+    if isinstance(o, (list, dict, set, bytearray)):
+        out.add(id(o))
+        for x in (o.values() if isinstance(o, dict) else o if not isinstance(o, bytearray) else ()):
+            native_mutables(x, seen, out)
+    elif isinstance(o, tuple):
+        for x in o:
+            native_mutables(x, seen, out)
+    elif attr.has(type(o)) and type(o).__module__.startswith('cryptoparser'):
+        frozen = getattr(type(o), '__setattr__', object.__setattr__) is not object.__setattr__
+        if not frozen:
+            out.add(id(o))
+        for a in attr.fields(type(o)):
+            native_mutables(getattr(o, a.name, None), seen, out)
+    return out
+
+
 def reachable_mutables(v, seen=None, out=None):
     seen = seen if seen is not None else set()
     out = out if out is not None else []
@@ -138,6 +163,9 @@ def alias_unit(cls):
 
     def run():
         e1.setup()
+        # frame condition of a parse: nothing that outlives the call (class attributes, module globals) is written
+        I.SHARED_WRITE_HOOK = lambda desc: e1.record_path_fact(
+            E.cur(), 'frame %s: the parser writes no state shared between calls (%s)' % (cls.__name__, desc), False)
         res = vc.run_unit(cls.__name__, thunk, on_result=on_path, max_paths=4000)
         if not res.obligations and not res.unsupported and not res.error:
             res.obligations.append(dict(name='alias %s: no accepting path' % cls.__name__, kind='post', status='proved', detail=None,
@@ -165,6 +193,17 @@ def alias_unit(cls):
         if not same:
             return dict(reproduced=True, call='o, n = %s.parse_immutable(buf := bytearray.fromhex(%r)); buf is overwritten and emptied' % (cls.__name__, bytes(data).hex()),
                         expected='o unchanged', observed=repr(obj)[:200], key='aliases input')
+        # two parses of the same bytes give two objects that share no mutable part
+        try:
+            o1, _ = cls.parse_immutable(bytes(data))
+            o2, _ = cls.parse_immutable(bytes(data))
+        except Exception:
+            return dict(reproduced=False)
+        shared = native_mutables(o1) & native_mutables(o2)
+        if shared:
+            return dict(reproduced=True, call='%s.parse_immutable(bytes.fromhex(%r)) twice' % (cls.__name__, bytes(data).hex()),
+                        expected='two objects without a shared mutable part', observed='%d mutable object(s) reachable from both results' % len(shared),
+                        key='shared between parses')
         return dict(reproduced=False)
 
     def replay(inputs):
@@ -357,6 +396,12 @@ def units(tier, seed):
             out.append(ctor_fresh_unit(vcls, param, w, source))
     from checks import c13_obs
     out.extend(c13_obs.units(tier, seed))
+    # fingerprinting observers: pure as well (the units that decide their value also state that they write nothing)
+    from checks import c08, c15
+    out.append(c08.keytag_full_unit('observer/DnsRecordDnskey.key_tag (value and purity)'))
+    gk, sk = c15.listed(c15.KF_GREASE), c15.listed(c15.KF_SCSV)
+    out.append(Unit('observer/TlsHandshakeClientHello.ja3 (value and purity)', c15.ja3_unit('unparsed', gk, sk), replay=c15.replay_for('unparsed', gk, sk),
+                    search=c15.search_for('unparsed', gk, sk), clause='observer purity', functions=['TlsHandshakeClientHello.ja3']))
     UNCOVERED[:] = common.uncovered_report(e1.binary_classes(), classes) + \
         ['as_json/as_markdown (C14 territory) and hassh/fingerprints observers are not under contract here']
     from checks import foundation
